@@ -261,7 +261,9 @@ func genBitmapLong(r *vh.Rng) Case {
 		case 0:
 			return addr(base, step, int64(units)) // just beyond the end
 		case 1:
-			return new(big.Int).Sub(base, big.NewInt(1)).String() // just before the base (may be -1)
+			if base.Sign() > 0 {
+				return new(big.Int).Sub(base, big.NewInt(1)).String() // just before the base
+			}
 		case 2: // unaligned address inside a unit
 			off := new(big.Int).Mul(step, big.NewInt(int64(r.Intn(units))))
 			off.Add(off, new(big.Int).Rsh(step, 1))
@@ -307,11 +309,6 @@ func genBitmapLong(r *vh.Rng) Case {
 			ops = append(ops, Op{K: "stats"})
 		default:
 			ops = append(ops, Op{K: "snap"})
-		}
-	}
-	for i := range ops {
-		if ops[i].A != "" && ops[i].A[0] == '-' {
-			ops[i].A = "0"
 		}
 	}
 	ops = append(ops, Op{K: "stats"}, Op{K: "snap"})
